@@ -81,6 +81,21 @@ theorem tieA_region_check_tx_power (r : RegionId) (p : Nat) :
         (fun o => (o.bind id).map Int.toNat) := by
   cases r <;> exact check_tx_power_aux _
 
+/-- `Configuration::is_uplink_datarate` through `region_dispatch!` (fixed plans: `dr <= F::MAX_UPLINK_DR &&
+self.get_datarate(dr).is_some()`, dynamic plans: the trait's default body): the model's `isUplinkDatarate`, for every
+region and every data rate index -/
+theorem tieA_region_is_uplink_datarate (r : RegionId) (dr : Nat) :
+    isUplinkDatarate r dr = Gen.RegionDispatch.Configuration.is_uplink_datarate (toGen r) (dr : Int) := by
+  cases r <;>
+    simp only [isUplinkDatarate, RegionId.isFixed, getDatarate, datarates, toGen,
+      Gen.RegionDispatch.Configuration.is_uplink_datarate, Int.toNat_natCast, Bool.true_and, if_true, if_false,
+      Bool.false_eq_true, Gen.RegionStatic.AU915Region.MAX_UPLINK_DR, Gen.RegionStatic.US915Region.MAX_UPLINK_DR] <;>
+    first
+      | rfl
+      | (congr 1; rw [Bool.eq_iff_iff]; simp only [maxUplinkDr]; constructor <;> intro h <;> (have h2 := of_decide_eq_true h; apply decide_eq_true; omega))
+
+example : isUplinkDatarate .US915 4 = true ∧ isUplinkDatarate .US915 8 = false ∧ isUplinkDatarate .AU915 6 = true := by decide
+
 example : getDatarate .US915 8 = Gen.RegionDispatch.Configuration.get_datarate .US915 8 ∧ (getDatarate .US915 8).isSome ∧
     (getDatarate .US915 5).isNone ∧ (getDatarate .US915 200).isNone := by decide
 example : txPowerAdjust .EU868 3 = .ok (some 10) := by rfl
@@ -88,6 +103,7 @@ example : txPowerAdjust .EU868 3 = .ok (some 10) := by rfl
 #print axioms tieA_region_get_datarate
 #print axioms tieA_region_has_fixed_channel_plan
 #print axioms tieA_region_check_tx_power
+#print axioms tieA_region_is_uplink_datarate
 end C09
 
 namespace C12
